@@ -197,6 +197,9 @@ func (eval Evaluator) Add(op0 *rlwe.Ciphertext, op1 rlwe.Operand, opOut *rlwe.Ci
 
 	case *big.Int:
 
+		// Works on a copy: the scalar operand must be left untouched.
+		op1 = new(big.Int).Set(op1)
+
 		_, level, err := eval.InitOutputUnaryOp(op0.El(), opOut.El())
 		if err != nil {
 			return fmt.Errorf("cannot Add: %w", err)
@@ -480,6 +483,9 @@ func (eval Evaluator) Mul(op0 *rlwe.Ciphertext, op1 rlwe.Operand, opOut *rlwe.Ci
 		}
 
 	case *big.Int:
+
+		// Works on a copy: the scalar operand must be left untouched.
+		op1 = new(big.Int).Set(op1)
 
 		_, level, err := eval.InitOutputUnaryOp(op0.El(), opOut.El())
 		if err != nil {
@@ -1161,6 +1167,9 @@ func (eval Evaluator) MulThenAdd(op0 *rlwe.Ciphertext, op1 rlwe.Operand, opOut *
 		}
 
 	case *big.Int:
+
+		// Works on a copy: the scalar operand must be left untouched.
+		op1 = new(big.Int).Set(op1)
 
 		_, level, err := eval.InitOutputUnaryOp(op0.El(), opOut.El())
 
